@@ -1,17 +1,56 @@
 #!/usr/bin/env python3
 """Generates /verif/MANIFEST.json from the table below (kept in one place so it stays valid)."""
 import json, subprocess
-HOOK_COMMITS = ["313b918"]
+HOOK_COMMITS = ["313b918", "6841531", "2316560"]
 CHECKS = {
  "C01": ("exploration", "proptest random search + exhaustive lifetime sweeps; round-trip oracle (lib sign -> all three lib verify entry points)",
-         "Seeded random search over (hash, 1..8 levels, W, H in {2,5,10}, seed, counter incl. roll-over boundaries written into the key blob, message lengths 0..8 KiB) plus exhaustive sweeps of every counter of small shapes: every released signature must verify through all three entry points. Exploration is the right level: the domain is unbounded, the oracle is exact.",
+         "Seeded random search over (hash, 1..8 levels, W, H in {2,5,10}, seed, counter incl. roll-over boundaries written into the key blob, message lengths 0..8 KiB) plus exhaustive sweeps of every counter of small shapes and forced 8-level keys: every released signature must verify through all three entry points. Exploration is the right level: the domain is unbounded, the oracle is exact.",
          "3.C01", "LmsH2 via verif-hooks; trees of height >= 15 never built; lib keygen memoised per (hash, params, seed)"),
+ "C02": ("exploration", "proptest differential against an independent RFC 8554 6.3/6a verifier over a wire-format mutation grammar + exhaustive byte/prefix sweeps",
+         "Library verdict (three entry points) must equal the verdict of an independently written RFC verifier on model-signed triples and on 1..2 stacked structure-aware mutations (field edits, cross-signature/level/key/hash splices, level drop/dup/swap, chain truncation, truncation/extension, random bytes); every byte position x {^01,^80} and every prefix of 1-3 level signatures exhaustively.",
+         "3.C02", "model anchored on RFC 8554 Appendix F vectors; a verifier panic counts as reject here (C06 owns it); model rejects L outside 1..8"),
+ "C03": ("exploration", "stateful model-based proptest: generated operation histories interpreted against the library and a ghost map of used one-time keys",
+         "Histories of sign / rejected sign / SigningKey sign / sign-with-aux / reload / retry / skip over complete small lifetimes; after every step the released signature is parsed by the model parser and the (level, I, q) -> content ghost map, the mixed-radix leaf rule, the I derivation and the successor-key rule are checked.",
+         "3.C03", "histories start from a fresh key and continue from the last persisted key; panics inside an attempt count as failed attempts (C11 owns them)"),
+ "C04": ("fault_enumeration", "enumerated fault product with a recording callback (ledger oracle)",
+         "Product of key state (fresh, middle, roll-over, last leaf, wiped, every truncation, extensions, all 256 values of every parameter byte, foreign-length blobs) x callback outcome x aux class x entry point is enumerated; the ledger (exactly one call with the model successor before release; zero calls on every error path) is checked for each.",
+         "3.C04", "panics are handed to C11 unless the callback had already run"),
+ "C05": ("exploration", "exhaustive per-counter lifetime steps end to end + exhaustive counter arithmetic through hook accessors against a u128 model",
+         "Every counter of complete small lifetimes (lifetime before/after, successor, wiped key at the last leaf, refusal afterwards through every entry point) and all tuples of 1..8 real heights x 48 boundary/random counters through the tree-less hook accessors.",
+         "3.C05", "hook skeleton key mirrors HssPrivateKey::from (cross-validated end to end on affordable shapes)"),
+ "C06": ("exploration", "exhaustive prefix/header-value/first-bytes enumeration + proptest mutation grammar + libFuzzer target (thorough) under catch_unwind with overflow checks",
+         "No panic for verify (3 entry points) and byte-level constructors on every prefix length, every value of every u32 header field, all values of the first 16 bytes, special inputs (empty, 9 levels, absurd level counts, > 65535 bytes) and random structure-aware mutations; thorough adds a coverage-guided libFuzzer campaign with the C02 differential in-target.",
+         "3.C06", "non-termination only guarded by the watchdog (parsers have no non-consuming loops)"),
  "C07": ("exploration", "proptest differential against an independent RFC 8554 / hash-sigs reference signer and verifier (byte equality)",
          "Library signature bytes are compared byte for byte with an independently written signer (lengths against the RFC formula first) and checked by an independently written verifier, over random shapes/counters/messages, a full (hash x W) grid and complete small lifetimes.",
          "3.C07", "sha2/sha3 primitives trusted; model anchored on the two RFC 8554 Appendix F vectors; non-SHA-256/32 hashes pin the current construction"),
  "C08": ("exploration", "proptest differential against an independent transcription of the hash-sigs key derivation and key-file layout",
          "Private key blob and public key bytes from keygen are compared with the model's (top-seed hashing, I derivation, one-time keys, Merkle root, nibble packing) for random seeds/special seeds and parameter lists of 1..8 levels with roots up to H15.",
          "3.C08", "no hash-sigs binary offline: model is a transcription anchored by RFC vectors; sha2/sha3 trusted"),
+ "C09": ("exploration", "metamorphic proptest: same call bare vs. after generated contexts / other entry points / other threads / child process (byte equality)",
+         "Outputs of keygen and sign must be byte-identical across generated call contexts (same-seed keygens with other parameters, other keys, failing calls), entry points, fresh threads, 7 concurrent noise threads and a fresh child process; reload chains vs in-memory chains.",
+         "3.C09", "thread interleavings are sampled, not enumerated"),
+ "C10": ("fault_enumeration", "enumeration of aux-buffer fault classes (every length, every bit, every truncation) + proptest over classes; metamorphic oracle (with aux == without) and model layout equality",
+         "Every zero-buffer length, every truncation and (thorough) every single bit of a valid buffer plus random members of all buffer classes: results equal those without aux; the buffer written by keygen equals the model's hash-sigs layout byte for byte.",
+         "3.C10", "reference outputs are the library's own without aux (C07/C08 pin those); valid buffers are produced by the model"),
+ "C11": ("fault_enumeration", "enumeration of malformed inputs (list lengths, key lengths, all parameter byte values, counters, aux headers) + proptest; no-panic + ledger + correctness-if-Ok oracle; libFuzzer target (thorough)",
+         "All parameter-list lengths 0..10, key lengths 0..64+, 8x256 parameter byte values, end-of-life counters, aux lengths 0..40 x first bytes, every level-word bit, every truncation: no panic; Err implies no callback; Ok implies a signature valid under the model public key.",
+         "3.C11", "parameter bytes decoding to H>=10 trees are parsed but not executed (cost)"),
+ "C12": ("exploration", "exhaustive enumeration of digit extraction and checksum encoding through a hook + random domination search + chain positions recovered from released signatures",
+         "For all 24 (hash, W) pairs: every byte position x value, every attainable checksum value (value, injectivity, monotonicity), parameter table vs Appendix B formula, random domination pairs, random digests vs model, end-to-end chain positions.",
+         "3.C12", "hook calls the same append_checksum_to/coef as signing and verification (cross-checked end to end)"),
+ "C13": ("exploration", "exhaustive enumeration of height tuples x boundary counters through hook accessors against a u128 mixed-radix model + end-to-end q fields",
+         "All height tuples (length <= 6 quick / <= 7 + sampled 8 thorough) over {2,5,10,15,20,25} x 48 counter slots; total >= 64 handled without arithmetic failure; end to end on 6xH10 / 7xH10 keys.",
+         "3.C13", "hook skeleton mirrors HssPrivateKey::from"),
+ "C14": ("exploration", "differential across build configurations: vprobe binaries built under HBS_LMS_* settings vs the default build and the model",
+         "For 3 (quick) / 14 (thorough) documented configurations: lists inside the limits behave byte-identically to the default build (keys, aux bytes, signatures, successors, lifetimes, verification), lists just outside are refused without panic.",
+         "3.C14", "each configuration is a separate build (own target dir); probe reports its limits through the hook"),
+ "C15": ("exploration", "generated inputs against fast_verify builds (thread count x try count) with verification / ledger / model hash_iterations oracle",
+         "For 2 (quick) / 6 (thorough) fast_verify builds: all hashes x W x message lengths x counters x callback outcomes x repetitions; returned message differs only in the trailer, signature verifies (lib x3 + model), ledger holds, hash_iterations matches; refused inputs consume nothing.",
+         "3.C15", "worker-thread schedules are sampled, not enumerated"),
+ "C16": ("exploration", "memory-residue oracle over generated secrets: zeroize() and drop_in_place observed through raw storage scans",
+         "For the five secret-bearing types x 6 hashes x random secrets: positive control, no 8-byte secret window survives zeroize() nor going out of scope; exhausted keys hold no seed bytes.",
+         "3.C16", "observes the named types' own storage only; volatile reads of dead storage are confined to the harness"),
 }
 NOT_YET = {}
 def main():
@@ -35,7 +74,7 @@ def main():
         else:
             na.append({"property_id":pid,"reason":NOT_YET.get(pid,"check not built yet in this round (planned in DESIGN.md section 3); not claimed until it exists")})
     m={"version":1,
-       "setup_cmd":"cd /verif/harness && CARGO_NET_OFFLINE=true cargo build --release --offline",
+       "setup_cmd":"cd /verif && ./setup.sh",
        "hooks":{"guard":"cargo feature verif-hooks","enable":"hbs-lms = { path = \"/repo\", features = [\"verif-hooks\"] } in /verif/harness/Cargo.toml","baseline_off_cmd":"cd /repo && cargo test --workspace --no-fail-fast --offline","source_commits":HOOK_COMMITS,"add_only":True},
        "engines":[{"name":"vcheck","path":"/verif/harness","serves_properties":sorted(CHECKS),"kind_free_text":"Rust binary: proptest TestRunner driven from a binary (seeded by VERIF_SEED, 16 workers, shrinking, JSON replay files), parallel exhaustive enumerators, independent reference model"}],
        "checks":checks,
